@@ -47,6 +47,8 @@ TPeerReply   == Ev("PeerReply") /\ Adv1 /\ EnvQuiet /\ PeerReplies(R.f, R.id, R.
 TPeerGot     == Ev("PeerGot") /\ Adv1 /\ PeerGot(R.a, R.f, R.id, R.n)
 TDown        == Ev("Down") /\ Adv1 /\ EnvQuiet /\ ServerDown(R.a)
 TUp          == Ev("Up") /\ Adv1 /\ EnvQuiet /\ ServerUp(R.a)
+\* a forged ICMP destination-unreachable (code in the line) about a datagram of flow f
+TFault       == Ev("Fault") /\ Adv1 /\ EnvQuiet /\ SocketFault(R.f)
 TAdv         == Ev("Adv") /\ Adv1 /\ Adv(R.d)
 TStall       == Ev("Stall") /\ Adv1 /\ EnvQuiet /\ inq = << >> /\ ClientStalls
 TResume      == Ev("Resume") /\ Adv1 /\ EnvQuiet /\ inq = << >> /\ ClientResumes
@@ -65,7 +67,7 @@ TNewConn == Ev("NewConn") /\ Adv1 /\ K(lcur.f) = RK
 TOutgoing == Ev("Outgoing") /\ Adv1 /\ RegisterOutgoing /\ K(lcur.f) = RK /\ R.pend = pipeTab'[RK].pend
 TSinkWrite == Ev("SinkWrite") /\ Adv1 /\ lpc = "write" /\ K(lcur.f) = RK
               /\ \/ R.ok /\ SinkWriteOk
-                 \/ ~R.ok /\ R.stage = "send" /\ SinkWriteErr
+                 \/ ~R.ok /\ R.stage = "send" /\ (SinkWriteErr \/ SinkWriteTooBig)
 
 \* the downstream sink was handed a datagram: it is the oldest reply waiting in some flow's
 \* socket, and its label is that flow's key reversed
@@ -116,7 +118,7 @@ TIcmp ==
 TNext == TStart \/ TBegin \/ TObs \/ TClientDgram \/ TPeerReply \/ TPeerGot \/ TDown \/ TUp \/ TAdv \/ TClose \/ TRet
          \/ TLookup \/ TInsert \/ TSockOpen \/ TNewConn \/ TOutgoing \/ TSinkWrite
          \/ TClientGot \/ TIncoming \/ TFlowRemove \/ TSockClose \/ TTick \/ TTickEnd \/ TIcmp
-         \/ TStall \/ TResume \/ TMetric
+         \/ TStall \/ TResume \/ TMetric \/ TFault
 
 TInit == l = 1 /\ Init
 TSpec == TInit /\ [][TNext]_tvars
